@@ -16,13 +16,20 @@ Proof.
   repeat (apply andb_true_iff in H; destruct H as [H ?]). lia.
 Qed.
 
+Lemma alive_known : forall t o, alive_b t o = true -> o_known o = true.
+Proof.
+  intros t o H. unfold alive_b in H. destruct (lookup t (o_pid o)); [|discriminate].
+  apply andb_true_iff in H. destruct H as [H _]. apply andb_true_iff in H. destruct H as [H _]. exact H.
+Qed.
+
 Lemma alive_facts : forall t o, alive_b t o = true ->
   raise_if_pid_reused t o = Val tt /\ self_ctime t o = Val (o_ident o) /\
   exists e, lookup t (o_pid o) = Some e /\ kp_start e = o_ident o.
 Proof.
   intros t o H. unfold alive_b in H. unfold raise_if_pid_reused, self_ctime.
   destruct (lookup t (o_pid o)) as [e|] eqn:L; [|discriminate].
-  apply andb_true_iff in H. destruct H as [H1 H2]. rewrite H1. apply Z.eqb_eq in H1.
+  apply andb_true_iff in H. destruct H as [H1 H2]. rewrite H1.
+  apply andb_true_iff in H1. destruct H1 as [_ H1]. apply Z.eqb_eq in H1.
   split; [reflexivity|]. split.
   - destruct (o_ctime o) as [c|].
     + apply Z.eqb_eq in H2. subst. reflexivity.
@@ -34,14 +41,15 @@ Lemma recycled_raises : forall t o, recycled_b t o = true -> raise_if_pid_reused
 Proof.
   intros t o H. unfold recycled_b in H. unfold raise_if_pid_reused.
   destruct (lookup t (o_pid o)) as [e|]; [|discriminate].
-  apply negb_true_iff in H. rewrite H. reflexivity.
+  apply andb_true_iff in H. destruct H as [K H]. apply negb_true_iff in H. rewrite K, H. reflexivity.
 Qed.
 
 (* ------------------------------------------------------------ the per-child test *)
 Lemma caller_start_alive : forall fx t o, alive_b t o = true -> caller_start fx t o = Val (o_ident o).
 Proof.
-  intros fx t o A. unfold caller_start. destruct (fx_mono fx); [reflexivity|].
-  destruct (alive_facts t o A) as [_ [C _]]. exact C.
+  intros fx t o A. destruct (alive_facts t o A) as [_ [C _]]. unfold caller_start, ident_opt.
+  rewrite (alive_known t o A). destruct (fx_mono fx); [|exact C].
+  destruct (fx_ident_some fx || negb (o_ident o =? 0)); [reflexivity | exact C].
 Qed.
 
 Lemma child_ok_spec : forall fx t gone o e, wf_table t = true -> alive_b t o = true -> In e t ->
@@ -203,7 +211,7 @@ Qed.
 
 Definition cyc2 : table := [ {| kp_pid := 10; kp_ppid := 20; kp_start := 100 |};
                              {| kp_pid := 20; kp_ppid := 10; kp_start := 100 |} ].
-Definition o10 : pobj := {| o_pid := 10; o_ident := 100; o_ctime := None |}.
+Definition o10 : pobj := {| o_pid := 10; o_ident := 100; o_ctime := None; o_known := true |}.
 
 Theorem children_rec_old_refuted :
   exists t o, wf_table t = true /\ alive_b t o = true /\
@@ -230,7 +238,7 @@ Qed.
 Definition loop7 : table := [ {| kp_pid := 1; kp_ppid := 0; kp_start := 1 |};
                               {| kp_pid := 7; kp_ppid := 7; kp_start := 50 |};
                               {| kp_pid := 9; kp_ppid := 7; kp_start := 60 |} ].
-Definition o7 : pobj := {| o_pid := 7; o_ident := 50; o_ctime := None |}.
+Definition o7 : pobj := {| o_pid := 7; o_ident := 50; o_ctime := None; o_known := true |}.
 
 Theorem children_direct_old_refuted :
   exists t o, wf_table t = true /\ alive_b t o = true /\
@@ -246,7 +254,7 @@ Definition tree5 : table := [ {| kp_pid := 1; kp_ppid := 0; kp_start := 1 |};
                               {| kp_pid := 6; kp_ppid := 5; kp_start := 20 |};   (* older than 5: a recycled PID *)
                               {| kp_pid := 8; kp_ppid := 5; kp_start := 40 |};
                               {| kp_pid := 9; kp_ppid := 8; kp_start := 40 |} ].
-Definition o5 : pobj := {| o_pid := 5; o_ident := 30; o_ctime := Some 30 |}.
+Definition o5 : pobj := {| o_pid := 5; o_ident := 30; o_ctime := Some 30; o_known := true |}.
 
 Example tree5_hyps : wf_table tree5 = true /\ alive_b tree5 o5 = true
   /\ children_direct as_is tree5 [] o5 = Val [8]
